@@ -267,7 +267,11 @@ func (c *siteCollector) observe(in ssa.Instruction, st *State, depth int) {
 		}
 		c.bounds(in, st, "index", base.name()+"["+idx.name()+"]", idx, limit, true)
 	case *ssa.Lookup:
-		// map lookup never panics; string index does
+		// a map lookup panics only for an unhashable interface key; string index does
+		if mt, isMap := x.X.Type().Underlying().(*types.Map); isMap && holdsInterface(mt.Key()) {
+			ok := c.comparableDyn(st, x.Index)
+			c.judge(in, "ifacekey", e.eval(st, x.Index).name(), ok, "map lookup with an interface key not known to hold a hashable dynamic type", st, false)
+		}
 		if _, isMap := x.X.Type().Underlying().(*types.Map); !isMap {
 			base := e.eval(st, x.X)
 			idx := e.eval(st, x.Index)
@@ -321,6 +325,12 @@ func (c *siteCollector) observe(in ssa.Instruction, st *State, depth int) {
 			ok, known := e.holds(st, e.compare(st, token.NEQ, d, avInt(0), x.Y.Type()))
 			c.judge(in, "div", d.name(), ok && known, "divisor "+d.name()+" not known to be non-zero", st, known && !ok)
 		}
+		if (x.Op == token.EQL || x.Op == token.NEQ) && holdsInterface(x.X.Type()) {
+			// comparing interface values panics when both hold the same
+			// non-comparable dynamic type ([]interface{}, map[string]interface{} …)
+			ok := c.comparableDyn(st, x.X) || c.comparableDyn(st, x.Y)
+			c.judge(in, "ifacecmp", e.eval(st, x.X).name()+x.Op.String()+e.eval(st, x.Y).name(), ok, "comparison of interface values neither of which is known to hold a comparable dynamic type (same non-comparable dynamic type on both sides panics)", st, false)
+		}
 	case *ssa.MakeSlice:
 		n := e.eval(st, x.Len)
 		ok, known := e.holds(st, e.compare(st, token.GEQ, n, avInt(0), intT))
@@ -341,6 +351,63 @@ func (c *siteCollector) observe(in ssa.Instruction, st *State, depth int) {
 			}
 		}
 	}
+}
+
+// holdsInterface: values of type t are, or contain, interface values (so ==
+// on them can panic at run time).
+func holdsInterface(t types.Type) bool {
+	switch u := t.Underlying().(type) {
+	case *types.Interface:
+		return true
+	case *types.Struct:
+		for i := 0; i < u.NumFields(); i++ {
+			if holdsInterface(u.Field(i).Type()) {
+				return true
+			}
+		}
+	case *types.Array:
+		return holdsInterface(u.Elem())
+	}
+	return false
+}
+
+// comparableDyn: the interface value v is nil or holds a value of a type that
+// is comparable without reservation (no interface inside): then == with any
+// other interface value cannot panic.
+func (c *siteCollector) comparableDyn(st *State, v ssa.Value) bool {
+	plain := func(t types.Type) bool { return t != nil && types.Comparable(t) && !holdsInterface(t) }
+	switch x := v.(type) {
+	case *ssa.Const:
+		return x.IsNil()
+	case *ssa.MakeInterface:
+		return plain(x.X.Type())
+	case *ssa.ChangeInterface:
+		return c.comparableDyn(st, x.X)
+	case *ssa.UnOp:
+		// a sentinel: package-level variable of type error. In this module its
+		// value must come from its initialiser only; elsewhere (io.EOF …) the
+		// standard library's sentinels are pointers.
+		if g, ok := x.X.(*ssa.Global); ok && x.Op == token.MUL && types.Identical(x.Type(), types.Universe.Lookup("error").Type()) {
+			if g.Pkg == nil || !c.e.w.InRepoPath(g.Pkg.Pkg.Path()) {
+				return true
+			}
+			return c.e.w.readOnlyOutsideInit(g)
+		}
+	}
+	if !holdsInterface(v.Type()) {
+		return false
+	}
+	if _, isIface := v.Type().Underlying().(*types.Interface); !isIface {
+		return false
+	}
+	a := c.e.eval(st, v)
+	if a.Kind == KIface && a.Dyn != nil {
+		return plain(a.Dyn)
+	}
+	if a.Kind == KNil {
+		return true
+	}
+	return false
 }
 
 // bounds judges 0 <= idx (< | <=) limit.
